@@ -114,7 +114,7 @@ func (e ConfigUint) IsDefault() bool {
 }
 
 func (e ConfigUint) Set(v string) error {
-	d, err := strconv.ParseUint(v, 10, 16)
+	d, err := strconv.ParseUint(v, 10, strconv.IntSize)
 	if err != nil {
 		return err
 	}
